@@ -1,9 +1,9 @@
 (* C18 -- a flattened manifest faithfully summarises the history.  Statements only.
-   PARTIAL: proved for every history: the flattened record list holds each path at most once, holds no directory
-   record and no failed digest; flatten returns the source tree unchanged and performs no write in it.  "Exactly one
-   digest per format, the earliest that did not fail", completeness over all recorded paths and the verify -pl round
-   trip are checked by the lockstep correspondence (the model's flatten_records is executed against the real flatten)
-   and by the oracle on the packing list read back independently. *)
+   Proved for every history: the flattened record list holds each path at most once, no directory record, no failed
+   digest, per record at most one digest per format, and -- the core of the property -- for EVERY path and format what
+   the flattened manifest holds is exactly the EARLIEST digest of that format, in generation order, that did not fail
+   (none if there is none); flatten returns the source tree unchanged and performs no write in it.
+   PARTIAL: the verify -pl round trip is not in the model; it is checked by the oracle on the implementation. *)
 From MHL Require Import Model.Commands Proofs.BaseFacts Proofs.InfoFacts Proofs.VerifyFacts.
 
 Theorem C18_flattened_records : forall gens, fl_inv (flatten_records gens).
@@ -13,6 +13,18 @@ Theorem C18_fl_inv_means : forall acc, fl_inv acc <->
   NoDup (map r_path acc) /\ Forall (fun r => r_dir r = false) acc /\
   Forall (fun r => forall e, In e (r_entries r) -> e_action e <> Some Failed) acc.
 Proof. intros acc. reflexivity. Qed.
+
+(* per record at most one digest per format, no previous paths *)
+Theorem C18_one_digest_per_format : forall gens, fl_inv2 (flatten_records gens).
+Proof. exact flatten_records_inv2. Qed.
+Print Assumptions C18_one_digest_per_format.
+
+(* scan = the order in which the generations, their file records and their entries are visited; earliest = the first
+   entry in that order for the path and format whose action is not `failed`; held = what the flattened list holds *)
+Theorem C18_holds_the_earliest_non_failed_digest : forall gens p f,
+  held (flatten_records gens) p f = earliest (scan gens) p f.
+Proof. exact flatten_keeps_earliest. Qed.
+Print Assumptions C18_holds_the_earliest_non_failed_digest.
 
 Theorem C18_source_untouched : forall C cdig t ip ifl,
   fst (flatten C cdig t ip ifl) = t /\ o_ops (snd (flatten C cdig t ip ifl)) = [].
